@@ -83,7 +83,11 @@ def run(case):
                 d(lambda x: x)
         elif what == "invariant_cond":
             cond = _cond_fn(case["condArgs"], case["condMandatory"], case["coroFn"], case.get("variadic"))
-            d = icontract.invariant(cond, enabled=case["enabled"])
+            ek = next(iter(case["err"])) if isinstance(case["err"], dict) else case["err"]
+            if ek != "none":
+                d = icontract.invariant(cond, enabled=case["enabled"], error=err_object(ek, v))
+            else:
+                d = icontract.invariant(cond, enabled=case["enabled"])
             phase = "apply"
             d(type("K", (), {}))
         elif what == "snapshot_name":
